@@ -98,10 +98,13 @@ type Node struct {
 // Membership is the applied membership of a replica.
 type Membership struct {
 	Voters, NonVotings, Witnesses, Removed map[uint64]bool
+	// CCID: index of the last applied membership change (ConfigChangeId); maintained by the
+	// schedule generator only (Driver.Apply), it ends up in the text of the snapshots it takes
+	CCID uint64
 }
 
 func newMembership() Membership {
-	return Membership{map[uint64]bool{}, map[uint64]bool{}, map[uint64]bool{}, map[uint64]bool{}}
+	return Membership{map[uint64]bool{}, map[uint64]bool{}, map[uint64]bool{}, map[uint64]bool{}, 0}
 }
 
 func (m Membership) clone() Membership {
@@ -118,6 +121,7 @@ func (m Membership) clone() Membership {
 	for k := range m.Removed {
 		c.Removed[k] = true
 	}
+	c.CCID = m.CCID
 	return c
 }
 
@@ -339,9 +343,9 @@ func fmtSnapshot(s pb.Snapshot) string {
 	if pb.IsEmptySnapshot(s) {
 		return "-"
 	}
-	return fmt.Sprintf("%d/%d/%s/%s/%s/%d/%d/%d", s.Index, s.Term, joinIDs(addrKeys(s.Membership.Addresses)),
+	return fmt.Sprintf("%d/%d/%s/%s/%s/%d/%d/%d/%d", s.Index, s.Term, joinIDs(addrKeys(s.Membership.Addresses)),
 		joinIDs(addrKeys(s.Membership.NonVotings)), joinIDs(addrKeys(s.Membership.Witnesses)),
-		b2i(s.Witness), b2i(s.Dummy), b2i(s.Filepath != ""))
+		b2i(s.Witness), b2i(s.Dummy), b2i(s.Filepath != ""), s.Membership.ConfigChangeId)
 }
 
 func parseSnapshot(t string) pb.Snapshot {
@@ -351,6 +355,9 @@ func parseSnapshot(t string) pb.Snapshot {
 	f := strings.Split(t, "/")
 	u := func(i int) uint64 { v, err := strconv.ParseUint(f[i], 10, 64); must(err); return v }
 	s := pb.Snapshot{Index: u(0), Term: u(1), Witness: u(5) == 1, Dummy: u(6) == 1}
+	if len(f) > 8 {
+		s.Membership.ConfigChangeId = u(8) // index of the last applied membership change
+	}
 	if u(7) == 1 {
 		s.Filepath = "snapshot.file"
 		s.FileSize = 1024
@@ -667,6 +674,7 @@ func MembershipOf(ss pb.Snapshot) Membership {
 	for k := range ss.Membership.Removed {
 		m.Removed[k] = true
 	}
+	m.CCID = ss.Membership.ConfigChangeId
 	return m
 }
 
